@@ -1,4 +1,5 @@
 import RpcVerif.Model.ServerSM
+import RpcVerif.Model.ServerInv
 import RpcVerif.Model.Proto
 /-  Executable side of S for the correspondence (script actions, settle, observation line). -/
 namespace RpcVerif.S
@@ -16,7 +17,7 @@ def firstEnabled (s : State) : List Ev → Option State
 def settle : Nat → State → State
   | 0, s => s
   | fuel + 1, s => match firstEnabled s (threadEvents s) with
-    | some s' => settle fuel s'
+    | some s' => if checkInv s' then settle fuel s' else { s' with crashed := some "invariant violated on the way" }
     | none => s
 
 def settled (s : State) : State := settle 100000 s
@@ -125,7 +126,7 @@ def serverStep (st : Option State) (toks : List String) : Option State × String
     | none => (none, "bad-op")
     | some s =>
       match action s toks with
-      | some s' => (some s', obs s')
+      | some s' => (some s', if checkInv s' then obs s' else "INVARIANT-VIOLATED " ++ obs s')
       | none => (some s, "bad-op")
 
 end RpcVerif.S
